@@ -1,10 +1,34 @@
 import PyxModel.Sexp
+import PyxModel.Reflexive
+import Driver.C02
 
-/-! driver commands of property C16 (stub: no command yet) -/
+/-!
+  driver command of property C16:
+  (sortrefl <schema> (ops …) (sorts ((set idx…) "R2" "phrase") …))   → one result per sort:
+  a list of instance indices or `UnknownLinkException`
+-/
 namespace Pyx.Driver.C16
-open Pyx Pyx.Sexp
+open Pyx Pyx.Sexp Pyx.Meta Pyx.Reflexive Pyx.Driver.C02
+
+def finalState (sc : Sch) (ops : List Sexp) : State :=
+  ops.foldl (fun s o => match decodeOp sc o with
+    | some op => (step sc.assocs s op).1
+    | none => s) init
+
+def runSort (sc : Sch) (s : State) : Sexp → Sexp
+  | list [list (sym "set" :: xs), r, p] =>
+    match sortReflexiveSt sc.assocs s (xs.filterMap asNat?) ((asStr? r).getD "") ((asStr? p).getD "") with
+    | some l => ofNats l
+    | none => sym "UnknownLinkException"
+  | _ => sym "bad-sort"
 
 def handle : List Sexp → Option Sexp
+  | [sym "sortrefl", sch, list (sym "ops" :: ops), list (sym "sorts" :: ss)] =>
+    match decodeSchema sch with
+    | some sc =>
+      let s := finalState sc ops
+      some (list (ss.map (runSort sc s)))
+    | none => some (sym "bad-schema")
   | _ => none
 
 end Pyx.Driver.C16
